@@ -177,6 +177,70 @@ func (e *Engine) reflectIntrinsic(name string, fn *ssa.Function, a []Val) (Val, 
 	case "reflect.New":
 		t := a[0].(Iface).v.(RT).t
 		return RV{t: types.NewPointer(t), v: Ptr{c: e.newCell(t)}}, true
+	case "reflect.NewAt":
+		t := a[0].(Iface).v.(RT).t
+		p, ok := a[1].(Ptr)
+		if !ok {
+			e.unsupported("reflect.NewAt with %T", a[1])
+		}
+		if p.c != nil {
+			c := e.resolve(p, "reflect.NewAt")
+			if !shapeCompatible(c.typ, t) && !(isAggType(c.typ) == isAggType(t) && e.sizes.Sizeof(c.typ) == e.sizes.Sizeof(t)) {
+				e.goPanic("invalid reinterpretation: reflect.NewAt(%v) over memory of type %v", t, c.typ)
+			}
+			p = Ptr{c: c}
+		}
+		return RV{t: types.NewPointer(t), v: p}, true
+	case "reflect.Zero":
+		t := a[0].(Iface).v.(RT).t
+		return RV{t: t, v: e.zero(t)}, true
+	case "reflect.ArrayOf":
+		n := a[0].(*Term)
+		if !n.IsConst() {
+			e.unsupported("reflect.ArrayOf with symbolic length")
+		}
+		return e.rtypeIface(types.NewArray(a[1].(Iface).v.(RT).t, int64(n.C))), true
+	case "reflect.MakeSlice":
+		t := a[0].(Iface).v.(RT).t
+		et := t.Underlying().(*types.Slice).Elem()
+		lt, ct := e.tf.Resize(a[1].(*Term), 64, true), e.tf.Resize(a[2].(*Term), 64, true)
+		e.allocGuard(ct, int(e.sizes.Sizeof(et)))
+		c := e.boundedIndex(ct, e.run.allocLimit(), true, "reflect.MakeSlice cap")
+		n := e.boundedIndex(lt, c, true, "reflect.MakeSlice len")
+		return RV{t: t, v: Slice{arr: e.newArray(et, c), len: n, cap: c}}, true
+	case "reflect.MakeMap", "reflect.MakeMapWithSize":
+		t := a[0].(Iface).v.(RT).t
+		return RV{t: t, v: &MapObj{epoch: e.epoch, kt: t.Underlying().(*types.Map).Key()}}, true
+	case "reflect.Append":
+		r := a[0].(RV)
+		s, ok := e.rvGet(r).(Slice)
+		if !ok {
+			e.unsupported("reflect.Append on %T", e.rvGet(r))
+		}
+		et := r.t.Underlying().(*types.Slice).Elem()
+		xs := a[1].(Slice)
+		for i := 0; i < xs.len; i++ {
+			x := e.load(xs.arr.kids[xs.off+i]).(RV)
+			v := e.rvGet(x)
+			if _, isI := et.Underlying().(*types.Interface); isI {
+				if _, already := v.(Iface); !already {
+					v = Iface{typ: x.t, v: v}
+				}
+			}
+			if s.len < s.cap {
+				e.store(s.arr.kids[s.off+s.len], v)
+				s.len++
+				continue
+			}
+			ncap := growCap(s.cap, s.len+1, int(e.sizes.Sizeof(et)))
+			arr := e.newArray(et, ncap)
+			for j := 0; j < s.len; j++ {
+				e.store(arr.kids[j], e.load(s.arr.kids[s.off+j]))
+			}
+			e.store(arr.kids[s.len], v)
+			s = Slice{arr: arr, len: s.len + 1, cap: ncap}
+		}
+		return RV{t: r.t, v: s}, true
 	case "(reflect.StructTag).Get":
 		return e.stringVal(reflect.StructTag(e.goString(a[0])).Get(e.goString(a[1]))), true
 	}
@@ -197,7 +261,10 @@ func (e *Engine) reflectIntrinsic(name string, fn *ssa.Function, a []Val) (Val, 
 		return e.KB(r.t != nil), true
 	case "Field":
 		i := int(a[1].(*Term).C)
-		st := r.t.Underlying().(*types.Struct)
+		st, isStruct := r.t.Underlying().(*types.Struct)
+		if !isStruct {
+			e.goPanic("reflect: call of reflect.Value.Field on %v Value", r.t)
+		}
 		if r.addr != nil {
 			return RV{t: st.Field(i).Type(), addr: r.addr.kids[i]}, true
 		}
@@ -215,13 +282,21 @@ func (e *Engine) reflectIntrinsic(name string, fn *ssa.Function, a []Val) (Val, 
 			return e.K(64, uint64(len(v.keys))), true
 		}
 	case "Index":
-		i := int(a[1].(*Term).C)
 		switch v := e.rvGet(r).(type) {
 		case Slice:
+			i := e.boundedIndex(e.tf.Resize(a[1].(*Term), 64, true), v.len-1, true, "reflect.Value.Index")
+			if v.str {
+				return RV{t: types.Typ[types.Uint8], v: e.load(v.arr.kids[v.off+i])}, true
+			}
 			et := r.t.Underlying().(*types.Slice).Elem()
 			return RV{t: et, addr: v.arr.kids[v.off+i]}, true
 		case Agg:
-			return RV{t: r.t.Underlying().(*types.Array).Elem(), v: v.f[i]}, true
+			i := e.boundedIndex(e.tf.Resize(a[1].(*Term), 64, true), len(v.f)-1, true, "reflect.Value.Index")
+			et := r.t.Underlying().(*types.Array).Elem()
+			if r.addr != nil {
+				return RV{t: et, addr: r.addr.kids[i]}, true
+			}
+			return RV{t: et, v: v.f[i]}, true
 		}
 	case "IsNil":
 		switch v := e.rvGet(r).(type) {
@@ -258,22 +333,119 @@ func (e *Engine) reflectIntrinsic(name string, fn *ssa.Function, a []Val) (Val, 
 		return e.tf.Resize(e.rvGet(r).(*Term), 64, false), true
 	case "Float":
 		t := e.rvGet(r).(*Term)
-		if t.W != 64 {
-			e.unsupported("float32 widening")
-		}
-		return t, true
+		return e.tf.FCvt(t, 64), true
 	case "Bool":
 		return e.rvGet(r), true
 	case "String":
 		return e.rvGet(r), true
-	case "CanAddr":
+	case "CanAddr", "CanSet":
 		return e.KB(r.addr != nil), true
+	case "CanInterface":
+		return e.KB(true), true
+	case "NumField":
+		return e.K(64, uint64(r.t.Underlying().(*types.Struct).NumFields())), true
+	case "Cap":
+		switch v := e.rvGet(r).(type) {
+		case Slice:
+			return e.K(64, uint64(v.cap)), true
+		case Agg:
+			return e.K(64, uint64(len(v.f))), true
+		}
+	case "Set":
+		x := a[1].(RV)
+		if r.addr == nil {
+			e.goPanic("reflect: reflect.Value.Set using unaddressable value")
+		}
+		v := e.rvGet(x)
+		if _, isI := r.t.Underlying().(*types.Interface); isI {
+			if _, already := v.(Iface); !already {
+				if x.t == nil {
+					v = Iface{}
+				} else {
+					v = Iface{typ: x.t, v: v}
+				}
+			}
+		} else if x.t != nil && !shapeCompatible(x.t, r.t) {
+			e.goPanic("reflect.Set: value of type %v is not assignable to type %v", x.t, r.t)
+		}
+		e.store(r.addr, v)
+		return nil, true
+	case "SetLen":
+		if r.addr == nil {
+			e.goPanic("reflect: reflect.Value.SetLen using unaddressable value")
+		}
+		s := e.load(r.addr).(Slice)
+		n := e.boundedIndex(e.tf.Resize(a[1].(*Term), 64, true), s.cap, true, "reflect.SetLen")
+		s.len = n
+		e.store(r.addr, s)
+		return nil, true
+	case "SetMapIndex":
+		mo, ok := e.rvGet(r).(*MapObj)
+		if !ok {
+			e.unsupported("SetMapIndex on %T", e.rvGet(r))
+		}
+		if mo == nil {
+			e.goPanic("assignment to entry in nil map")
+		}
+		k, x := a[1].(RV), a[2].(RV)
+		if mo.kt != nil && k.t != nil && !shapeCompatible(mo.kt, k.t) {
+			e.goPanic("reflect.Value.SetMapIndex: value of type %v is not assignable to type %v", k.t, mo.kt)
+		}
+		v := e.rvGet(x)
+		if _, isI := r.t.Underlying().(*types.Map).Elem().Underlying().(*types.Interface); isI {
+			if _, already := v.(Iface); !already {
+				v = Iface{typ: x.t, v: v}
+			}
+		}
+		e.mapUpdate(mo, e.rvGet(k), v)
+		return nil, true
+	case "IsZero":
+		switch v := e.rvGet(r).(type) {
+		case *Term:
+			return e.tf.Eq(v, e.K(int(v.W), 0)), true
+		case Slice:
+			if v.str {
+				return e.KB(v.len == 0), true
+			}
+			return e.KB(v.arr == nil), true
+		case Ptr:
+			return e.KB(v.c == nil), true
+		case Iface:
+			return e.KB(v.typ == nil), true
+		case *MapObj:
+			return e.KB(v == nil), true
+		}
+	case "Slice":
+		s, ok := e.rvGet(r).(Slice)
+		if !ok {
+			e.unsupported("reflect.Value.Slice on %T", e.rvGet(r))
+		}
+		lo := e.boundedIndex(e.tf.Resize(a[1].(*Term), 64, true), s.cap, true, "reflect.Slice lo")
+		hi := e.boundedIndex(e.tf.Resize(a[2].(*Term), 64, true), s.cap, true, "reflect.Slice hi")
+		if lo > hi {
+			e.goPanic("reflect.Value.Slice: slice index out of bounds")
+		}
+		return RV{t: r.t, v: Slice{arr: s.arr, off: s.off + lo, len: hi - lo, cap: s.cap - lo, str: s.str}}, true
+	case "UnsafeAddr":
+		if r.addr == nil {
+			e.goPanic("reflect.Value.UnsafeAddr of unaddressable value")
+		}
+		return Ptr{c: r.addr, raw: true}, true
 	case "Addr":
 		return RV{t: types.NewPointer(r.t), v: Ptr{c: r.addr}}, true
-	case "Pointer":
+	case "Pointer", "UnsafePointer":
 		switch v := e.rvGet(r).(type) {
 		case Ptr:
-			return v, true // uintptr with provenance (spike: same value)
+			if v.c == nil {
+				return e.K(64, 0), true
+			}
+			v.raw = m == "Pointer" // uintptr with provenance
+			return v, true
+		case Slice:
+			if v.arr == nil || v.off >= len(v.arr.kids) {
+				return e.K(64, 0), true
+			}
+			return Ptr{c: v.arr.kids[v.off], raw: m == "Pointer"}, true
 		}
 	case "MapKeys":
 		mo := e.rvGet(r).(*MapObj)
@@ -297,7 +469,12 @@ func (e *Engine) reflectIntrinsic(name string, fn *ssa.Function, a []Val) (Val, 
 		}
 		return RV{}, true
 	case "Convert":
-		return RV{t: a[1].(Iface).v.(RT).t, v: e.rvGet(r)}, true
+		to := a[1].(Iface).v.(RT).t
+		v := e.rvGet(r)
+		if t, isT := v.(*Term); isT {
+			v = e.convert(t, r.t, to)
+		}
+		return RV{t: to, v: v}, true
 	}
 	e.unsupported("reflect.Value.%s on %T", m, e.rvGet(r))
 	return nil, true
